@@ -9,6 +9,7 @@ import (
 
 	"github.com/pion/interceptor"
 	"github.com/pion/interceptor/pkg/nack"
+	"github.com/pion/interceptor/verifh/litmus"
 	"github.com/pion/interceptor/vsched"
 	"github.com/pion/rtcp"
 	"github.com/pion/rtp"
@@ -17,6 +18,17 @@ import (
 func main() {
 	if len(os.Args) > 1 && os.Args[1] == "smoke" {
 		smoke()
+		return
+	}
+	if len(os.Args) > 1 && os.Args[1] == "litmus" {
+		r := litmus.Run()
+		fmt.Printf("litmus: cases=%d executions=%d failed=%d race=%v\n", r.Cases, r.Executions, len(r.Failed), vsched.RaceEnabled)
+		for _, f := range r.Failed {
+			fmt.Println("  FAIL", f)
+		}
+		if len(r.Failed) > 0 {
+			os.Exit(1)
+		}
 		return
 	}
 	fmt.Println("verifh: no command")
